@@ -22,6 +22,7 @@ macro "gd_atom" : tactic => `(tactic| first
   | exact (keeps_setTName _ _).good
   | exact (keeps_restore _).good
   | exact (keeps_get).good
+  | exact (keeps_modify _ (by intro s; rfl)).good
   | assumption)
 
 macro "gd" : tactic => `(tactic| repeat' (first
